@@ -1267,7 +1267,7 @@ enum ChildOutcome {
     Harness(#[allow(dead_code)] String),
 }
 
-fn run_in_child(choices: &[u32], exh: u32, no_excl: bool) -> ChildOutcome {
+fn run_in_child(part: &str, choices: &[u32], exh: u32, no_excl: bool) -> ChildOutcome {
     use std::io::Read;
     use std::os::unix::process::{CommandExt, ExitStatusExt};
     use std::process::{Command, Stdio};
@@ -1275,7 +1275,7 @@ fn run_in_child(choices: &[u32], exh: u32, no_excl: bool) -> ChildOutcome {
     let dir = scratch_dir();
     let id = N.fetch_add(1, std::sync::atomic::Ordering::Relaxed);
     let path = dir.join(format!("c05-deep-{}-{}.json", std::process::id(), id));
-    let j = serde_json::json!({"property": "C05", "part": "deep", "kind": "choices", "data": choices, "exh": exh, "no_exclusions": no_excl});
+    let j = serde_json::json!({"property": "C05", "part": part, "kind": "choices", "data": choices, "exh": exh, "no_exclusions": no_excl});
     if std::fs::write(&path, j.to_string()).is_err() {
         return ChildOutcome::Harness("cannot write the child's case file".into());
     }
@@ -1394,7 +1394,7 @@ pub fn run_deep(s: &mut Src, ctx: &mut Ctx) -> Verdict {
         return judge(t, &text, ctx);
     }
     ctx.label("deep-child-process");
-    match run_in_child(&[ti as u32, ui as u32, pi as u32, si as u32], ctx.exh, ctx.no_exclusions) {
+    match run_in_child("deep", &[ti as u32, ui as u32, pi as u32, si as u32], ctx.exh, ctx.no_exclusions) {
         ChildOutcome::Pass => finish(t, &text, Ok("ok"), ctx),
         // the child judged the same case in-process: only a caught panic can fail there
         ChildOutcome::Fail(sig, detail) if sig.starts_with("panic@") => Verdict::fail(sig, detail),
@@ -1409,6 +1409,113 @@ pub fn run_deep(s: &mut Src, ctx: &mut Ctx) -> Verdict {
         ChildOutcome::Hang => Verdict::fail(format!("hang@{}", t.name()), format!("{} did not return within {} s on {:?}", t.name(), watchdog_secs(), short(&text))),
         ChildOutcome::Harness(_) => Verdict::Discard("child process could not be run (or ran out of memory)"),
     }
+}
+
+// ------------------------------------------------------------------ complexity probes (termination)
+
+/// short tokens per language from which the repeated units of part `chains` are built
+fn chain_tokens(l: Lang) -> &'static [&'static str] {
+    match l {
+        Lang::Eval => &["a", "1", "+", "-", "*", "/", "%", "(", ")", " ", "2.5", "\"s\"", "U.n"],
+        Lang::BExpr => &["a", "1", "==", "!=", "&&", "||", "!", "(", ")", " ", "NOT ", "<", "\"s\"", "X.y"],
+        Lang::Grl => &["X.a", "1", "==", "&&", "||", "!", "(", ")", " ", "+", "-", "*", "\"s\"", "exists("],
+        Lang::GrlQ => &["A", "1", "==", "&&", "||", "!", "(", ")", " ", "NOT ", "\"s\"", "?x", ","],
+        Lang::Agg => &["count(", "?x", ")", " WHERE ", " AND ", "p(", ",", " ", "\"s\"", "sum(", "(", "a"],
+        Lang::Disj => &["(", ")", " OR ", "A", " ", "\"s\"", "p(?x)", ",", " AND "],
+        Lang::Nest => &["g(?x)", " WHERE ", "(", ")", "p(?y)", " ", " AND ", " OR ", ",", "NOT "],
+        Lang::Stream => &["e:", " Evt", " from", " stream(", "\"s\"", ")", " over", " window(", "5", " min", ",", " sliding", " ", "&&"],
+    }
+}
+
+/// repetitions tried for one unit, in this order; small steps so that exponential growth is seen early
+const CHAIN_SIZES: [usize; 13] = [3, 6, 9, 12, 15, 18, 21, 24, 28, 32, 40, 48, 64];
+
+/// choices: target, 2 tokens (param 2) or 3 tokens (param 3), placement (0 bare, 1 followed by the operand,
+/// 2 inside the first skeleton slot with the operand)
+fn gen_chain(s: &mut Src, exh: u32) -> (Target, String, usize) {
+    let t = ALL_TARGETS[s.below(ALL_TARGETS.len())];
+    let toks = chain_tokens(t.lang());
+    let k = if exh >= 3 { 3 } else { 2 };
+    let mut unit = String::new();
+    for _ in 0..k {
+        unit.push_str(toks[s.below(toks.len())]);
+    }
+    let place = s.below(3);
+    (t, unit, place)
+}
+
+fn build_chain(t: Target, unit: &str, place: usize, n: usize) -> String {
+    let l = t.lang();
+    let chain = unit.repeat(n);
+    let text = match place {
+        0 => chain,
+        1 => format!("{}{}", chain, tail(l)),
+        _ => {
+            let (a, b) = contexts(l)[0];
+            format!("{}{}{}{}", a, chain, tail(l), b)
+        }
+    };
+    clamp(text)
+}
+
+/// One case = one repeated unit on one entry point, tried at growing lengths. The oracle is the statement's: each call
+/// returns (panic / overflow / watchdog). Elapsed time only routes the call: once a length needed more than 100 ms, the
+/// longer ones run in a child process, so that a call that does not return becomes `hang@<target>` with the text that
+/// hangs instead of a stuck worker.
+pub fn run_chains(s: &mut Src, ctx: &mut Ctx) -> Verdict {
+    let (t, unit, place) = gen_chain(s, ctx.exh);
+    let ti = ALL_TARGETS.iter().position(|x| *x == t).unwrap_or(0);
+    if probe_only() {
+        return Verdict::Pass;
+    }
+    ctx.describe(|| format!("{} [chain of {:?} × {:?}, placement {}] e.g. {:?}", t.name(), unit, CHAIN_SIZES, place, short(&build_chain(t, &unit, place, 6))));
+    ctx.label(target_label(t));
+    let direct = std::env::var("VERIF_C05_DIRECT").is_ok();
+    let mut slow = false;
+    for n in CHAIN_SIZES {
+        // every length is one judged call with its own watchdog
+        heartbeat();
+        let text = build_chain(t, &unit, place, n);
+        let text = apply_exclusions(t, text, false, ctx);
+        if matched_nesting(&text) > MAX_NEST {
+            break;
+        }
+        if !slow || direct {
+            let t0 = std::time::Instant::now();
+            let v = judge(t, &text, ctx);
+            if v.is_fail() {
+                return v;
+            }
+            if t0.elapsed().as_millis() > 100 {
+                slow = true;
+                ctx.label("chain-slower-than-100ms");
+            }
+            continue;
+        }
+        ctx.label("chain-child-process");
+        let mut choices: Vec<u32> = vec![ti as u32, text.len() as u32];
+        choices.extend(text.bytes().map(|b| b as u32));
+        match run_in_child("text", &choices, 0, true) {
+            ChildOutcome::Pass => {}
+            ChildOutcome::Fail(sig, detail) if sig.starts_with("panic@") => return Verdict::fail(sig, detail),
+            ChildOutcome::Fail(..) | ChildOutcome::Harness(_) => return Verdict::Discard("child process could not be judged"),
+            ChildOutcome::Signal(sn, overflow) => {
+                return if overflow {
+                    Verdict::fail(format!("stack-overflow@{}", t.name()), format!("{} overflowed an 8 MiB stack on {:?} (child died by signal {})", t.name(), short(&text), sn))
+                } else {
+                    Verdict::fail(format!("signal-{}@{}", sn, t.name()), format!("{} killed the process (signal {}) on {:?}", t.name(), sn, short(&text)))
+                };
+            }
+            ChildOutcome::Hang => {
+                return Verdict::fail(
+                    format!("hang@{}", t.name()),
+                    format!("{} did not return within {} s on {:?} ({} bytes: {:?} repeated {} times, placement {})", t.name(), watchdog_secs(), short(&text), text.len(), unit, n, place),
+                )
+            }
+        }
+    }
+    ctx.nontrivial(hash_of(&(t, &unit, place)));
+    Verdict::Pass
 }
 
 // ------------------------------------------------------------------ literal texts (witness replay only)
@@ -1451,7 +1558,7 @@ pub fn property() -> Property {
     let mut prop = Property {
         id: "C05",
         level: "exploration",
-        rule: "generated: (entry point, text) for 14 entry points (GRLParser::parse_rules/parse_rule/parse_with_modules, QueryParser::parse, ExpressionParser::parse, GRLQueryParser::parse/parse_queries, parse_aggregate_query, DisjunctionParser::parse, NestedQueryParser::parse, parse_stream_pattern/parse_stream_join_pattern/parse_window_spec, expression::evaluate_expression over a fixed 6-field store); text is valid UTF-8 of at most 4096 bytes from three random families (raw bytes lossily decoded; token soup of the language's keywords/operators/delimiters plus multi-byte tokens, bare or in the slots of a valid skeleton; valid seeds mutated 1-4 times by truncation at a byte, insertion/replacement of a multi-byte character, deletion of a delimiter/slice/bracket group, duplication, splice, token insertion, long runs, extreme numbers) and two enumerated ones (edits: every seed x every single truncation / character deletion / extreme number / dropped bracket group / multi-byte insertion or replacement; deep: unit^n for 31 units and n = 1,2,4,...,4096 (quick: up to 512) plus balanced nesting up to 32, bare and in every slot of a valid skeleton). Texts whose matched bracket nesting exceeds 32 are discarded. Oracle: the call returns (Ok or Err) on a thread with an 8 MiB stack: a panic fails with the panic location as signature, a stack overflow or abort (seen as the death of a child process for deep cases of 1000 bytes or more, of the worker otherwise) and a run longer than the watchdog fail. Non-trivial: the text passes the first syntactic gate of its parser, judged on the text alone (rule/query keyword followed by a brace pair; a first token the recursive descent consumes; ` WHERE ` / parenthesised ` OR ` present; leading identifier / `over`; at least one arithmetic operator) and the call returned; distinct by (entry point, text).",
+        rule: "generated: (entry point, text) for 14 entry points (GRLParser::parse_rules/parse_rule/parse_with_modules, QueryParser::parse, ExpressionParser::parse, GRLQueryParser::parse/parse_queries, parse_aggregate_query, DisjunctionParser::parse, NestedQueryParser::parse, parse_stream_pattern/parse_stream_join_pattern/parse_window_spec, expression::evaluate_expression over a fixed 6-field store); text is valid UTF-8 of at most 4096 bytes from three random families (raw bytes lossily decoded; token soup of the language's keywords/operators/delimiters plus multi-byte tokens, bare or in the slots of a valid skeleton; valid seeds mutated 1-4 times by truncation at a byte, insertion/replacement of a multi-byte character, deletion of a delimiter/slice/bracket group, duplication, splice, token insertion, long runs, extreme numbers) and two enumerated ones (edits: every seed x every single truncation / character deletion / extreme number / dropped bracket group / multi-byte insertion or replacement; deep: unit^n for 31 units and n = 1,2,4,...,4096 (quick: up to 512) plus balanced nesting up to 32, bare and in every slot of a valid skeleton). Texts whose matched bracket nesting exceeds 32 are discarded. Oracle: the call returns (Ok or Err) on a thread with an 8 MiB stack: a panic fails with the panic location as signature, a stack overflow or abort (seen as the death of a child process for deep cases of 1000 bytes or more, of the worker otherwise) and a run longer than the watchdog fail. Non-trivial: the text passes the first syntactic gate of its parser, judged on the text alone (rule/query keyword followed by a brace pair; a first token the recursive descent consumes; ` WHERE ` / parenthesised ` OR ` present; leading identifier / `over`; at least one arithmetic operator) and the call returned; distinct by (entry point, text). Part `chains` (exhaustive): every unit of 2 (thorough: 3) tokens over a 9-14 token alphabet per language (operands, infix and prefix operators, brackets, keywords), repeated 3,6,...,64 times, bare / followed by an operand / inside the first skeleton slot, on every entry point of that language; every length is one judged call; after the first call slower than 100 ms the longer ones run in a child process (hang@<target> names the text).",
         assumptions: vec![
             "stack size: every call runs on a thread created with an explicit 8 MiB stack, the default main-thread stack on Linux; frame sizes are those of the harness build (engine at opt-level 2, no ASan) - the unbounded recursions C05-F8/F9 overflow 8 MiB only when the engine is built at opt-level 0 (`cargo build --bin rre-check --config 'profile.dev.package.rust-rule-engine.opt-level=0'`) or under ASan (fuzz crate)".into(),
             "termination is judged by the 120 s watchdog (VERIF_WATCHDOG_S) per input: by the monitor for in-process cases, and 2 s earlier by this module for deep cases run in a child process (so that its timeout, which carries a signature, wins the race against the monitor)".into(),
@@ -1470,6 +1577,7 @@ pub fn property() -> Property {
             Part { name: "edits", run: run_edits, quick: Budget::Exhaustive { param: 1 }, thorough: Budget::Exhaustive { param: 2 }, min_nontrivial_pct: 0 },
             Part { name: "text", run: run_text, quick: Budget::Skip, thorough: Budget::Skip, min_nontrivial_pct: 0 },
             Part { name: "deep", run: run_deep, quick: Budget::Exhaustive { param: 10 }, thorough: Budget::Exhaustive { param: 13 }, min_nontrivial_pct: 0 },
+            Part { name: "chains", run: run_chains, quick: Budget::Exhaustive { param: 2 }, thorough: Budget::Exhaustive { param: 3 }, min_nontrivial_pct: 0 },
         ],
         watchdog: true,
         replay_reps: 1,
